@@ -832,3 +832,29 @@ fn c05_header_bad_sync_rejected() {
     assert!(matches!(h, Err(Error::InvalidSyncCode)));
     std::mem::forget(h);
 }
+
+// @harness prop=C04 tier=quick expect=pass timeout=600
+// @units stream::FrameHeader::parse stream::FrameHeader::from_reader(Streaminfo)
+// @bound a whole frame header from an arbitrary bit source: every field arbitrary, coded number of any length (unary prefix <= 15), end of data possible at every read; with and without STREAMINFO
+// @oracle never a panic
+#[kani::proof]
+#[kani::unwind(10)]
+fn c04_frame_header_any_bits() {
+    let mut r = SymBits::arbitrary(15);
+    let h: Result<FrameHeader, Error> = r.parse();
+    std::mem::forget(h);
+    let si = crate::metadata::Streaminfo {
+        minimum_block_size: 16,
+        maximum_block_size: kani::any(),
+        minimum_frame_size: None,
+        maximum_frame_size: None,
+        sample_rate: 44100,
+        channels: std::num::NonZero::new(2).unwrap(),
+        bits_per_sample: SignedBitCount::<32>::new::<16>(),
+        total_samples: None,
+        md5: None,
+    };
+    let mut r = SymBits::arbitrary(15);
+    let h: Result<FrameHeader, Error> = r.parse_with(&si);
+    std::mem::forget(h);
+}
